@@ -153,19 +153,20 @@ def plan(ctx):
             PC.N_JOBS, (1, 2), (1, "n_jobs", "2*n_jobs", 3, "all"), ("list", "generator", "generator_unordered"), ("drop", "zombie"),
             (False, True), progs):
         configs.append(dict(n_jobs=nj, batch_size=bs, pre_dispatch=pre, return_as=ra, abort=ab, managed=managed,
-                            calls=calls, n=4 if quick else 5))
+                            calls=calls, n=(3 if len(calls) >= 3 else 4) if quick else 5))
     items = []
     if quick:
         fields = ["n_jobs", "batch_size", "pre_dispatch", "return_as", "abort", "managed", "calls"]
         cover, rest = PC.pairwise_cover(configs, fields)
-        sel = cover + PC.rotate_slice(rest, ctx.seed, 80)
+        sel = cover + PC.rotate_slice(rest, ctx.seed, 120)
         for c in sel:
-            items.append((c, (1, 1, 1, 2, 1), 60000))
+            # the withhold decision of the zombie environment needs a second deviation to land inside the next call
+            items.append((c, (1, 1, 1, 2, 1) if c["abort"] == "zombie" else (1, 1, 1, 1, 1), 60000))
     else:
         for c in configs:
             items.append((c, (1, 1, 2, 3, 2), 400000))
     items.sort(key=lambda it: -len(it[0]["calls"]))
-    return PC.shard_items(items, lambda it: len(it[0]["calls"]), 3 if quick else 2, nshards=4)
+    return PC.shard_items(items, lambda it: len(it[0]["calls"]), 2, nshards=6 if quick else 4)
 
 
 def run(ctx):
